@@ -52,6 +52,11 @@ def fname(i, nm=None):
     return f"Fr{nm[i - 1] if nm else i}"
 
 
+def evalt(fld):
+    """the type a field's spreads are evaluated for (FragmentsPkg!EvalT)"""
+    return fld["T"] if fld.get("wrap", "-") == "-" else fld["wrap"]
+
+
 def findex(name, nm):
     r = int(name[2:])
     return nm.index(r) + 1 if nm else r
@@ -70,7 +75,10 @@ def render_case(defs, ops, perm=None, mixin_on=None, nm=None):
         flds = []
         for i, fld in enumerate(op, start=1):
             mix = ' @mixin(from: ".mixins_mod", import: "MixinO")' if mixin_on == ("field", k, i) else ""
-            flds.append(f"  x{i}: {ROOTF[fld['T']]}{mix} {{\n" + "\n".join(f"    ...{fname(f, nm)}" for f in fld["fs"]) + "\n  }")
+            inner = "\n".join(f"    ...{fname(f, nm)}" for f in fld["fs"])
+            if fld.get("wrap", "-") != "-":
+                inner = f"    ... on {fld['wrap']} {{\n" + "\n".join("  " + ln for ln in inner.split("\n")) + "\n    }"
+            flds.append(f"  x{i}: {ROOTF[fld['T']]}{mix} {{\n" + inner + "\n  }")
         parts[("o", k)] = f"query Op{k} {{\n" + "\n".join(flds) + "\n}"
     keys = list(parts)
     if perm is not None:
@@ -95,24 +103,24 @@ def run(tier, work, replay=None):
     v = Verdict("C08", tier)
     q = tier == "quick"
     rnd = random.Random(seed())
-    jobs = [("mc", dict(cfg=cfg(2, 2, 2, "NoDeviations", export=6000 if q else 250), workers=8)),
-            ("mc3", dict(cfg=cfg(3, 1, 1 if q else 2, "NoDeviations", export=1200 if q else 1500), workers=6)),
+    # (NF, MaxOps, MaxFields): 2 fragments x (2 operations of 1 field | 1 operation of 2 fields), 3 fragments x 1 x 1 -- each
+    # exhaustive in TLC (0.13 M - 1.5 M states); a 1-in-N sample of the terminal states is driven into the generator
+    jobs = [("mc", dict(cfg=cfg(2, 2, 1, "NoDeviations", export=250 if q else 60), workers=6)),
+            ("mcb", dict(cfg=cfg(2, 1, 2, "NoDeviations", export=250 if q else 60), workers=6)),
+            ("mc3", dict(cfg=cfg(3, 1, 1, "NoDeviations", export=3000 if q else 400), workers=8)),
             ("dev", dict(cfg=cfg(2, 1, 2, "PreFix", invs=["MixinClassExists"]), workers=2))]
-    if not q:
-        jobs.append(("mc4", dict(cfg=cfg(4, 1, 1, "NoDeviations", perms="TwoPerms"), workers=8)))
-
     def tj(j):
         name, kw = j
         c = kw.pop("cfg")
         return name, run_tlc("FragmentsPkg_MC", c, work.sub("tlc_" + name), timeout=3400, **kw)
     rr = dict(pmap(tj, jobs))
-    for name in ("mc", "mc3", "mc4"):
+    for name in ("mc", "mcb", "mc3"):
         if name in rr:
             tlc_must_pass(rr[name], f"FragmentsPkg {name}")
             v.add_tlc(rr[name], f"FragmentsPkg exhaustive {name}")
     if "MixinClassExists" not in rr["dev"].invariant_violated:
         raise Machinery("anti-vacuity: the pre-fix deviations do not violate MixinClassExists")
-    cases = cases_from(rr["mc"]) + cases_from(rr["mc3"])
+    cases = cases_from(rr["mc"]) + cases_from(rr["mcb"]) + cases_from(rr["mc3"])
     seen, uniq = set(), []
     for c in cases:
         k = json.dumps([c["defs"], c["ops"], c["nm"]], sort_keys=True)
@@ -152,7 +160,7 @@ def run(tier, work, replay=None):
                 flds = []
                 for fld in op:
                     flds.append({"T": fld["T"], "direct_exact": [fname(f, c["nm"]) for f in fld["fs"]
-                                                                  if not c["defs"][f - 1]["inl"] and c["defs"][f - 1]["on"] == fld["T"]]})
+                                                                  if not c["defs"][f - 1]["inl"] and c["defs"][f - 1]["on"] == evalt(fld)]})
                 ops_payload.append(flds)
             obs = run_in_pkg(job, "harness.pkg.c08", {"package": "gclient", "frag_names": [fname(i + 1, c["nm"]) for i in range(len(c["defs"]))],
                                                       "ops": ops_payload})
@@ -179,7 +187,7 @@ def run(tier, work, replay=None):
         for k, op in enumerate(c["ops"]):
             for i, fld in enumerate(op):
                 fo = obs["ops"][k][i]
-                exact = [fname(f, c["nm"]) for f in fld["fs"] if not c["defs"][f - 1]["inl"] and c["defs"][f - 1]["on"] == fld["T"]]
+                exact = [fname(f, c["nm"]) for f in fld["fs"] if not c["defs"][f - 1]["inl"] and c["defs"][f - 1]["on"] == evalt(fld)]
                 for inst in fo["instances"]:
                     if "error" in inst:
                         v.violation(feats, "call_failed", {"queries": qtext, "error": inst["error"]})
